@@ -178,7 +178,7 @@ func checkC17(c *Ctx, r *Report) {
 		for _, ci := range calls {
 			flagOK, chOK := false, false
 			otherFlag := ""
-			for _, cd := range DomConds(ci.(ssa.Instruction).Block()) {
+			for _, cd := range ExpandConds(DomConds(ci.(ssa.Instruction).Block())) {
 				v, truth := cd.V, cd.Truth
 				if u, ok := v.(*ssa.UnOp); ok && u.Op == token.NOT {
 					v, truth = u.X, !truth
@@ -369,6 +369,17 @@ func dquoteRules(c *Ctx, r *Report) {
 		}
 		if qt.Block() == bs.Block() {
 			under = false
+		}
+		// the other order: both tests read one and the same byte (one load), so a byte that is the quote is not the
+		// backslash; what matters then is only that the byte after a backslash is never looked at (checked below)
+		if !under {
+			qb, _ := qt.Cond.(*ssa.BinOp)
+			bb, _ := bs.Cond.(*ssa.BinOp)
+			if qb != nil && bb != nil && qb.X == bb.X {
+				if _, isConst := qb.X.(*ssa.Const); !isConst {
+					under = true
+				}
+			}
 		}
 		r.Check(under, "R17f", name, "quote test on unescaped byte", c.Pos(qt.Pos()), "the quote test is reached only when the byte is not a backslash", "the closing-quote test is not restricted to bytes that are not part of an escape sequence")
 		// after a backslash the position advances by two: some value computed under the backslash branch is position+1 and flows into the loop counter's back edge, which adds one more
